@@ -94,6 +94,22 @@ theorem C07_checks_sound (d : Dag) (gens : List (List Nat)) (c : Nat) (nodes : L
     (checkCreateFirst d c nodes = true → (∀ n, d.pipeline n = true → n ∈ nodes) → CreateFirst d c) :=
   ⟨checkGens_sound, checkCreateFirst_sound⟩
 
+/-- (j) **Backups** (`use_backups`): submitting a backup copy of a pending input, or the failure of one
+twin while the other is still running, leaves the input pending — so the streams of the generation cannot
+be closed (no operation end, no later operation start) until some copy of it has succeeded.  (b)–(e) hold
+for runs containing such steps: they are steps of the same transition system. -/
+theorem C07_failed_copy_keeps_input_pending (d : Dag) (allow : St → Nat → Nat → Bool) (s s' : St) (o t : Nat)
+    (h : Step d allow s (.copyFail o t) s' ∨ Step d allow s (.backup o t) s') :
+    s' = s ∧ (o, t) ∈ s'.running ∧ ∀ g s'', ¬ Step d allow s' (.closeGen g) s'' := by
+  have key : s' = s ∧ (o, t) ∈ s'.running := by
+    rcases h with h | h
+    · cases h with | copyFail hr => exact ⟨rfl, hr⟩
+    · cases h with | backup hr => exact ⟨rfl, hr⟩
+  refine ⟨key.1, key.2, ?_⟩
+  intro g s'' hc
+  cases hc with
+  | closeGen _ hrun _ => rw [hrun] at key; exact absurd key.2 (by simp)
+
 /-- (i) **Tie to the source** (facts regenerated from the tree under test by `harness/extract_c07.py` on every
 run): the traversals iterate networkx's topological order / generations filtered by `skip_node`; the
 executors iterate those traversals; operation-start is sent before and operation-end after the stream of
@@ -172,6 +188,10 @@ example : ∃ l1 s1 s1' o t l2 s, Run exDag anyPolicy (init (genSchedule exDag e
     · cases h
   let ⟨l1, s1, s1', o, t, l2, h1, hs, h2⟩ := read_step_of_obs hr hmem
   ⟨l1, s1, s1', o, t, l2, s, h1, hs, h2⟩
+
+/-- a failing backup copy of a pending task (hypothesis of (j)) -/
+example : ∃ s s', Step exDag anyPolicy s (.copyFail 2 0) s' :=
+  ⟨⟨[], some [2], [[0]], [(2, 0)], []⟩, _, Step.copyFail (by simp)⟩
 
 /-- … while a read of array 3 before its producer (op 2) is closed is rejected, and so is a consumer
 started together with its producer. -/
